@@ -172,6 +172,11 @@ def _one_op(op, world, program, stats, hist, p0, dspecs, flat, pkind, dtv, shock
         except Exception:
             raise Inconclusive("not simulated")
         N, T = spot.shape
+        if not bool((spot > 0).all()):
+            # a non-positive price (Euler local-volatility scheme with a large step, or a shock) has no log-moneyness:
+            # outside the domain of the Black-Scholes modules, nothing to decide
+            stats.ambiguous_skipped += 1
+            return shocked
         far = bool(((spot.double() / dspecs["d0"]["params"]["strike"]).log().abs() > 0.5).any()) if bool((spot > 0).all()) else True
         regime = "flat" if flat else ("shocked" if shocked and far else "ordinary")
         if flat:
